@@ -60,7 +60,7 @@ pub fn eval_c09(case: &J) -> Outcome {
     let p = DpParameters::new(case["eps"].as_f64().unwrap(), case["delta"].as_f64().unwrap(), 0.5, 1000.0, 1.0, 5);
     let dp = match guarded(|| rel.rewrite_with_differential_privacy(&rels, None, privacy_unit(), p.clone())) {
         Ok(Ok(d)) => d, Ok(Err(_)) => { out.tag("trivial"); out.tag("dp-err"); return out; }
-        Err((loc, msg)) => { out.tag("trivial"); out.fail(&format!("C18/c09/rewrite-panic/{}", site_file(&loc)), format!("{sql}: {msg}")); return out; }
+        Err((loc, msg)) => { out.tag("trivial"); out.fail(&format!("C18/c09/rewrite-panic/{}", site(&loc, &msg)), format!("{sql}: {msg}")); return out; }
     };
     let data = data_of(case);
     let db = data.load(RandomMode::Const(0.25)); // cos(2π·0.25) = 0: every Box–Muller draw is 0
@@ -158,7 +158,7 @@ pub fn eval_c01(case: &J) -> Outcome {
     let p = DpParameters::new(case["eps"].as_f64().unwrap(), case["delta"].as_f64().unwrap(), 0.5, case["mult"].as_f64().unwrap(), case["mult_share"].as_f64().unwrap(), 5);
     let dp = match guarded(|| rel.rewrite_with_differential_privacy(&rels, None, privacy_unit(), p.clone())) {
         Ok(Ok(d)) => d, Ok(Err(_)) => { out.tag("trivial"); return out; }
-        Err((loc, msg)) => { out.tag("trivial"); out.fail(&format!("C18/c01/rewrite-panic/{}", site_file(&loc)), format!("{sql}: {msg}")); return out; }
+        Err((loc, msg)) => { out.tag("trivial"); out.fail(&format!("C18/c01/rewrite-panic/{}", site(&loc, &msg)), format!("{sql}: {msg}")); return out; }
     };
     let mut maps = vec![]; noise_maps(dp.relation(), &mut maps, &mut vec![]);
     if maps.is_empty() { out.tag("trivial"); return out; }
@@ -215,7 +215,7 @@ pub fn eval_clip(case: &J) -> Outcome {
     let mut out = Outcome::new();
     let c = case["c"].as_f64().unwrap();
     let table: Relation = Relation::table().name("t").schema(vec![("pu", DataType::integer_interval(0, 10)), ("g", DataType::integer_interval(0, 10)), ("x", DataType::optional(DataType::float_interval(-20., 20.)))].into_iter().collect::<qrlew::relation::Schema>()).size(100).build();
-    let rel = match guarded(|| table.clone().l2_clipped_sums("pu", &["g"], &[("s", "x", c)])) { Ok(r) => r, Err((loc, msg)) => { out.tag("trivial"); out.fail(&format!("C18/clip/panic/{}", site_file(&loc)), msg); return out; } };
+    let rel = match guarded(|| table.clone().l2_clipped_sums("pu", &["g"], &[("s", "x", c)])) { Ok(r) => r, Err((loc, msg)) => { out.tag("trivial"); out.fail(&format!("C18/clip/panic/{}", site(&loc, &msg)), msg); return out; } };
     let db = crate::exec::Db::new(RandomMode::Const(0.25));
     let rows: Vec<Vec<Cell>> = case["rows"].as_array().unwrap().iter().map(|r| vec![Cell::Int(r[0].as_i64().unwrap()), Cell::Int(r[1].as_i64().unwrap()), r[2].as_f64().map_or(Cell::Null, Cell::Real)]).collect();
     db.create_table("t", &["pu", "g", "x"], &rows);
@@ -291,7 +291,7 @@ pub fn eval_c05(case: &J) -> Outcome {
     let strategy = if case["strategy"] == "soft" { Strategy::Soft } else { Strategy::Hard };
     let pup = match guarded(|| rel.rewrite_as_privacy_unit_preserving(&rels, None, privacy_unit(), DpParameters::from_epsilon_delta(1.0, 1e-4), Some(strategy))) {
         Ok(Ok(d)) => d, Ok(Err(_)) => { out.tag("trivial"); out.tag("pup-refused"); return out; }
-        Err((loc, msg)) => { out.tag("trivial"); out.fail(&format!("C18/c05/rewrite-panic/{}", site_file(&loc)), format!("{sql}: {msg}")); return out; }
+        Err((loc, msg)) => { out.tag("trivial"); out.fail(&format!("C18/c05/rewrite-panic/{}", site(&loc, &msg)), format!("{sql}: {msg}")); return out; }
     };
     let has_pu = pup.relation().schema().iter().any(|f| f.name() == "_PRIVACY_UNIT_");
     if !has_pu { out.tag("trivial"); out.tag("public-result"); return out; }
@@ -350,7 +350,7 @@ pub fn eval_limit(case: &J) -> Outcome {
     let mut out = Outcome::new();
     let k = case["k"].as_u64().unwrap();
     let table: Relation = Relation::table().name("t").schema(vec![("pu", DataType::integer_interval(0, 10)), ("key", DataType::integer_interval(0, 10))].into_iter().collect::<qrlew::relation::Schema>()).size(100).build();
-    let rel = match guarded(|| table.clone().limit_col_contributions("pu", k)) { Ok(r) => r, Err((loc, msg)) => { out.tag("trivial"); out.fail(&format!("C18/limit/panic/{}", site_file(&loc)), msg); return out; } };
+    let rel = match guarded(|| table.clone().limit_col_contributions("pu", k)) { Ok(r) => r, Err((loc, msg)) => { out.tag("trivial"); out.fail(&format!("C18/limit/panic/{}", site(&loc, &msg)), msg); return out; } };
     let rows: Vec<Vec<Cell>> = case["rows"].as_array().unwrap().iter().map(|r| vec![Cell::Int(r[0].as_i64().unwrap()), Cell::Int(r[1].as_i64().unwrap())]).collect();
     for mode in [RandomMode::Seeded(case["seed"].as_u64().unwrap()), RandomMode::Const(0.25)] {
         let mode_copy = mode.clone();
@@ -401,7 +401,7 @@ pub fn eval_c04(case: &J) -> Outcome {
     let p = DpParameters::new(eps, delta, share, 100.0, 1.0, kk);
     let dp = match guarded(|| rel.rewrite_with_differential_privacy(&rels, None, privacy_unit(), p.clone())) {
         Ok(Ok(d)) => d, Ok(Err(_)) => { out.tag("trivial"); return out; }
-        Err((loc, msg)) => { out.tag("trivial"); out.fail(&format!("C18/c04/rewrite-panic/{}", site_file(&loc)), format!("{sql}: {msg}")); return out; }
+        Err((loc, msg)) => { out.tag("trivial"); out.fail(&format!("C18/c04/rewrite-panic/{}", site(&loc, &msg)), format!("{sql}: {msg}")); return out; }
     };
     let facts = ir::facts(dp.relation());
     if facts.taus.is_empty() { out.tag("trivial"); out.tag("no-threshold"); return out; }
